@@ -23,6 +23,7 @@ type boundsCtx struct {
 	p     *Prog
 	fn    *ssa.Function
 	keys  map[ssa.Value]string
+	targets []string                   // extra terms phi bounds are joined against (length of the indexed base)
 	alias map[ssa.Value]ssa.Value      // load -> the single stored value it must observe
 	kills map[string][]ssa.Instruction // address key -> stores
 	reachAfter map[ssa.Instruction]map[*ssa.BasicBlock]bool
@@ -376,6 +377,19 @@ func (bc *boundsCtx) defFacts(f *factSet, roots []ssa.Value) {
 		case *ssa.BinOp:
 			visit(x.X, depth+1)
 			visit(x.Y, depth+1)
+			if _, isC := constInt(x.Y); !isC && x.Op == token.SUB {
+				// t = a - b with two symbolic operands: t <= a - lb(b) ; t >= -(ub of b-a)
+				t := bc.key(x)
+				an, ao := bc.term(x.X, 0)
+				bn, bo := bc.term(x.Y, 0)
+				if lb := boundOf(f, "", bn); lb < bInf { // 0 - b <= lb  =>  b >= -lb
+					// t - a = -b <= lb + ... : (t) - (an+ao) = -(bn+bo) <= lb - bo
+					f.le(t, 0, an, ao, lb-bo)
+				}
+				if d := boundOf(f, bn, an); d < bInf { // b - a <= d => a - b >= -d => 0 - t <= d + (bo - ao)
+					f.le("", 0, t, 0, d+bo-ao)
+				}
+			}
 		case *ssa.Convert:
 			visit(x.X, depth+1)
 		case *ssa.Call:
@@ -445,7 +459,7 @@ func (bc *boundsCtx) defFacts(f *factSet, roots []ssa.Value) {
 			// term; an edge phi+k (k >= 0) does not lower the lower bound (induction) and
 			// forbids an upper bound unless k == 0.
 			me := bc.key(x)
-			targets := []string{""}
+			targets := append([]string{""}, bc.targets...)
 			for _, c := range f.cs {
 				for _, n := range []string{c.x, c.y} {
 					if strings.HasPrefix(n, "len(") {
@@ -458,7 +472,7 @@ func (bc *boundsCtx) defFacts(f *factSet, roots []ssa.Value) {
 				// lower: T - x <= c  (x >= T - c)
 				lbOK, lb := true, -bInf
 				ubOK, ub := true, -bInf
-				for _, e := range x.Edges {
+				for ei, e := range x.Edges {
 					n, off := bc.term(e, 0)
 					if n == me {
 						if off < 0 {
@@ -469,13 +483,18 @@ func (bc *boundsCtx) defFacts(f *factSet, roots []ssa.Value) {
 						}
 						continue
 					}
+					// facts that hold when control leaves the predecessor of this edge
+					ef := &factSet{cs: append([]cstr{}, f.cs...), nes: append([]neq{}, f.nes...)}
+					if ei < len(x.Block().Preds) && depth < 3 {
+						bc.edgeFacts(ef, x.Block().Preds[ei])
+					}
 					// T - (n+off) <= d[T][n] - off
-					if b := boundOf(f, T, n); b >= bInf {
+					if b := boundOf(ef, T, n); b >= bInf {
 						lbOK = false
 					} else if b-off > lb {
 						lb = b - off
 					}
-					if b := boundOf(f, n, T); b >= bInf {
+					if b := boundOf(ef, n, T); b >= bInf {
 						ubOK = false
 					} else if b+off > ub {
 						ub = b + off
@@ -659,6 +678,12 @@ func checkBounds(p *Prog, fn *ssa.Function, axioms func(bc *boundsCtx, f *factSe
 						}
 					}
 				}
+			}
+			if ln, _ := bc.lenTerm(base); ln != "" {
+				bc.targets = []string{ln}
+				f.le("", 0, ln, 0, 0)
+			} else {
+				bc.targets = nil
 			}
 			bc.defFacts(f, roots)
 			bc.rateFacts(f, b, base)
